@@ -221,6 +221,16 @@ def handleC14 : Handler := fun cfg op a impl =>
           | none, _ => false
         some (withOracle model ok)
     | [] => none
+  | "gdt_load", [max, used, base, _kind] =>
+    -- a table with `used` slots in use (contents do not matter to `load`), at address `base`
+    let g : Gdt := { max := max, table := List.replicate max 0#64, len := used }
+    let model := match Gdt.load cfg g base with
+      | .ok [.lgdt l b] => ["1", "lgdt", toString l.toNat, toString b]
+      | .ok _ => ["?"]
+      | .panic => ["0", "panic"]
+    -- spec: one `lgdt` whose operand is (8 x used slots - 1, the table's own address)
+    some { model := model, oracleOk := impl == ["1", "lgdt", toString (8 * used - 1), toString base],
+           why := "load must execute one lgdt with limit 8*len-1 and the table's own address" }
   | _, _ => none
 
 end X86.Driver
